@@ -441,6 +441,98 @@ fn all_words(len: usize) -> Vec<Vec<Ev>> {
     out
 }
 
+/// Draws older than two windows never influence the transformation: two histories that differ
+/// only in their first window must give bit-identical transformations after two window switches.
+/// Exhaustive over window lengths (n1, n2, n3) in 1..=4 and the three estimators; the synthetic
+/// draws/gradients are deliberately not Gaussian-consistent (stale sums cannot cancel).
+fn stale_window_check(p: &mut Partial) {
+    use nuts_rs::verif::MassMatrixAdaptStrategy as MM;
+    let pt = |k: usize, variant: f64| -> (Vec<f64>, Vec<f64>) {
+        let t = k as f64 + 1.0 + variant;
+        (
+            vec![(1.3 * t).sin() * 2.0 + 0.3 * t, (0.7 * t).cos() - 0.1 * t * t * 0.05],
+            vec![-(0.9 * t).cos() * 1.7 - 0.2, (1.9 * t).sin() * 0.6 + 0.05 * t],
+        )
+    };
+    for est in 0..3usize {
+        for n1 in 1..=4usize {
+            for n2 in 1..=4usize {
+                for n3 in 1..=4usize {
+                    if n2 + n3 < 3 {
+                        continue;
+                    }
+                    let mut outs: Vec<Vec<u64>> = vec![];
+                    for variant in [0.0, 37.5] {
+                        let mut math = CpuMath::new(Dens::new(Target::std_normal(2)));
+                        let mut feed = |strat: &mut dyn FnMut(&mut M, &nv::DrawGradCollector<M>), sw: &mut dyn FnMut(&mut M), math: &mut M| {
+                            for k in 0..n1 {
+                                let (x, g) = pt(k, variant);
+                                let c = nv::draw_grad_collector(math, &x, &g, true);
+                                strat(math, &c);
+                            }
+                            sw(math);
+                            for k in 0..n2 {
+                                let (x, g) = pt(100 + k, 0.0);
+                                let c = nv::draw_grad_collector(math, &x, &g, true);
+                                strat(math, &c);
+                            }
+                            sw(math);
+                            for k in 0..n3 {
+                                let (x, g) = pt(200 + k, 0.0);
+                                let c = nv::draw_grad_collector(math, &x, &g, true);
+                                strat(math, &c);
+                            }
+                        };
+                        let bits: Vec<u64> = if est < 2 {
+                            let strat = std::cell::RefCell::new(DiagAdaptStrategy::<M>::new(&mut math, DiagAdaptExpSettings { store_mass_matrix: false, use_grad_based_estimate: est == 0 }, 0, 0));
+                            feed(&mut |m, c| strat.borrow_mut().update_estimators(m, c), &mut |m| strat.borrow_mut().switch(m), &mut math);
+                            let mut mm = nv::diag_mass_matrix_new(&mut math, false);
+                            let changed = strat.borrow().adapt(&mut math, &mut mm);
+                            let mut b: Vec<u64> = nv::diag_mass_matrix_stds(&mm, &mut math).iter().map(|x| x.to_bits()).collect();
+                            b.extend(nv::diag_mass_matrix_mean(&mm, &mut math).iter().map(|x| x.to_bits()));
+                            b.push(changed as u64);
+                            b
+                        } else {
+                            let strat = std::cell::RefCell::new(<LowRankMassMatrixStrategy as MM<M>>::new(&mut math, LowRankSettings::default(), 0, 0));
+                            feed(
+                                &mut |m, c| <LowRankMassMatrixStrategy as MM<M>>::update_estimators(&mut strat.borrow_mut(), m, c),
+                                &mut |m| <LowRankMassMatrixStrategy as MM<M>>::switch(&mut strat.borrow_mut(), m),
+                                &mut math,
+                            );
+                            let mut mm = LowRankMassMatrix::new(&mut math, LowRankSettings::default());
+                            let changed = <LowRankMassMatrixStrategy as MM<M>>::adapt(&strat.borrow(), &mut math, &mut mm);
+                            // observe the transformation through its action on a probe point
+                            let x = faer::Col::from_fn(2, |i| 0.4 - 0.9 * i as f64);
+                            let g = faer::Col::from_fn(2, |i| -0.3 + 0.5 * i as f64);
+                            let mut y = math.new_array();
+                            let mut gy = math.new_array();
+                            let ld = mm.inv_transform_normalize(&mut math, &x, &g, &mut y, &mut gy).unwrap_or(f64::NAN);
+                            let mut b: Vec<u64> = math.box_array(&y).iter().map(|v| v.to_bits()).collect();
+                            b.extend(math.box_array(&gy).iter().map(|v| v.to_bits()));
+                            b.push(ld.to_bits());
+                            b.push(changed as u64);
+                            b
+                        };
+                        outs.push(bits);
+                    }
+                    p.evaluations += 2;
+                    p.transitions += (2 * (n1 + n2 + n3)) as u64;
+                    if outs[0] != outs[1] {
+                        p.violation(
+                            format!("C09/draws-older-than-two-windows-influence-the-transformation/{}", ["diag-grad", "diag-draw", "lowrank"][est]),
+                            format!("windows of {n1}, {n2}, {n3} draws: changing only the first window changes the transformation estimated after two switches"),
+                            json!({"estimator": est, "windows": [n1, n2, n3]}),
+                        );
+                        return;
+                    }
+                    p.class(format!("stale:{est}"));
+                }
+            }
+        }
+    }
+    p.validated += 1;
+}
+
 pub fn run(tier: Tier, _replay: Option<String>) -> i32 {
     let mut report = Report::new(
         "C09",
@@ -494,6 +586,11 @@ pub fn run(tier: Tier, _replay: Option<String>) -> i32 {
                 });
             }
         }
+    }
+    {
+        let mut p = Partial::new();
+        stale_window_check(&mut p);
+        report.merge(p);
     }
     report.bounds = json!({"all_words_up_to_num_tune": n_all, "dedup_search_up_to_num_tune": n_dedup, "option_sets": opts.len()});
     mc_core::par_for_each(&opts, |_, o| {
